@@ -43,6 +43,30 @@ def evaluate(drv, cases, tag='main'):
     return total, dis, vio
 
 
+def model_targets(drv):
+    """MODEL_TARGETS plus every AV library named in the headers of the driver's case files."""
+    import re
+    targets = list(drv.MODEL_TARGETS)
+    specs = []
+    try:
+        specs.append(drv.SPEC)
+    except Exception:
+        pass
+    try:
+        specs.extend(dict(drv.SPECS).values())
+    except Exception:
+        pass
+    for sp in specs:
+        for line in str(sp.get('header', '')).split('\n'):
+            m = re.match(r'\s*From AV Require Import (.*?)\.\s*$', line)
+            if m:
+                for lib in m.group(1).split():
+                    t = lib.replace('.', '/') + '.vo'
+                    if t not in targets:
+                        targets.append(t)
+    return targets
+
+
 def main(argv=None):
     ap = argparse.ArgumentParser()
     ap.add_argument('pid')
@@ -75,11 +99,14 @@ def main(argv=None):
     if not ok:
         proof_ok = False
         proof_note += ' make failed: ' + out[-1200:]
-        # the models may still build even when a proof does not
-        mok, mout, _ = core.coq_make(drv.MODEL_TARGETS)
-        model_ok = mok
-        if not mok:
-            proof_note += ' MODEL BUILD FAILED: ' + mout[-1200:]
+    # every library the case files import must be built from the current sources (the
+    # models may still build when a proof does not; a case file may import a library
+    # that no Props file depends on)
+    mok, mout, _ = core.coq_make(model_targets(drv))
+    model_ok = mok
+    if not mok:
+        proof_ok = False
+        proof_note += ' MODEL BUILD FAILED: ' + mout[-1200:]
     props = dict(theorems=[], closed=0, nprint=0, axioms=[], ok=False)
     if ok:
         props = core.coq_props(pid)
@@ -98,6 +125,9 @@ def main(argv=None):
         try:
             if args.replay:
                 meta = json.load(open(args.replay))
+                if 'case' not in meta and meta.get('first_disagreement'):
+                    # a broken correspondence: the replay is its first disagreement
+                    meta['case'] = meta['first_disagreement']
                 cases = drv.replay_cases(meta)
             else:
                 cases = drv.corpus_cases() + drv.cases(tier, seed)
